@@ -30,9 +30,13 @@ type stubRing struct {
 	rf     int
 	sets   map[uint32]ring.ReplicationSet
 	getErr map[uint32]error
+	onGet  func(key uint32)
 }
 
 func (r *stubRing) Get(key uint32, _ ring.Operation, _ []ring.InstanceDesc, _, _ []string) (ring.ReplicationSet, error) {
+	if r.onGet != nil {
+		r.onGet(key)
+	}
 	if e := r.getErr[key]; e != nil {
 		return ring.ReplicationSet{}, e
 	}
@@ -88,11 +92,16 @@ func runC10(s *sim.Sim) {
 	var getErrKey = -1
 	for k := 0; k < nKeys; k++ {
 		keyVals[k] = uint32(k*1000 + 7)
-		p := s.Perm(nInst, "replicas")[:rf]
+		size := rf
+		if s.Chance(0.35, "short-replica-set") {
+			// fewer replicas than the replication factor (instances that left / are unhealthy)
+			size = s.Range(1, rf, "replica-count")
+		}
+		p := s.Perm(nInst, "replicas")[:size]
 		sort.Ints(p)
 		ck := &c10key{replicas: p}
 		// tolerance: usually the ring's (len - (rf/2+1)), sometimes any value in [0,len-1]
-		ck.maxErr = len(p) - (rf/2 + 1)
+		ck.maxErr = len(p) - (rf/2 + 1) // the ring's rule: a majority of the replication factor must succeed
 		if ck.maxErr < 0 {
 			ck.maxErr = 0
 		}
@@ -195,6 +204,11 @@ func runC10(s *sim.Sim) {
 		s.OnEnd(pool.Close)
 	}
 
+	// fault: the caller's context ends while DoBatch is still mapping keys to replicas
+	cancelDuringLookup := -1
+	if nKeys > 0 && !zeroInstances && s.Chance(0.06, "cancel-during-lookup") {
+		cancelDuringLookup = s.Choose(nKeys, "cancel-at-key")
+	}
 	returned, entered := false, false
 	var retErr error
 	preCancelled := false
@@ -202,6 +216,15 @@ func runC10(s *sim.Sim) {
 		cancel(cause)
 		cancelled, preCancelled = true, true
 		s.Fault("ctx-cancel")
+	}
+	if cancelDuringLookup >= 0 {
+		sr.onGet = func(key uint32) {
+			if key == keyVals[cancelDuringLookup] && !cancelled {
+				cancelled, preCancelled = true, true
+				s.Fault("ctx-cancel-during-lookup")
+				cancel(cause)
+			}
+		}
 	}
 	s.Go("dobatch", func() {
 		entered = true
